@@ -227,3 +227,42 @@ def family_objlist(tier, seed, n=None):
                {"op": "probe", "call": wcall(), "paths": paths}]
         out.append({"id": "L/obj/%s/%d" % ("core" if core else "s%d" % seed, t), "world": world, "ops": ops, "tags": []})
     return out
+
+
+def family_objlist_randsz(tier, seed, n=None):
+    """random-size lists of OBJECTS: the user populates the list, the solver chooses how many elements it exposes.  Calls pin
+    the size to values that shrink and grow again; foreach bodies (element and index forms), the elements' own blocks and
+    the four views of the list are judged on the exposed prefix after every call"""
+    out = []
+    n = n or (6 if tier == "quick" else 80)
+    for t in range(n):
+        core = t < n // 2
+        rnd = random.Random((434 if core else 4400 + seed) * 100003 + t)
+        nobj = rnd.choice([2, 3, 4])
+        sub = {"base": "", "cb": t % 2 == 0,
+               "fields": [fld("x", 3, False), fld("y", 2, False), fld("z", 2, False, rand=False, init=rnd.randrange(4))],
+               "blocks": [{"name": "sc", "dynamic": False, "body": [E(B("ne", F("y"), F("z")))]}]}
+        lo = rnd.choice([0, 1, 1])
+        body = [E({"k": "in", "e": {"k": "size", "l": "ol"}, "items": [{"k": "r", "lo": lit(lo), "hi": lit(nobj)}], "neg": False}),
+                # the element at position i carries i (+ a): a hidden or stale expansion shows as a wrong value
+                FE("ol", "j", [E(B("eq", SUB("ol", IX("j"), "x"), B("add", IX("j"), lit(t % 3))))], it=False, idx=True),
+                FE("ol", "e", [E(B(rnd.choice(["le", "ne", "ge"]), IT("e", "y"), F("a")))])]
+        if t % 3 == 1:
+            body.append(E(B(rnd.choice(["le", "ge", "ne"]), {"k": "size", "l": "ol"}, F("a"))))
+        top = {"base": "", "cb": t % 2 == 0,
+               "fields": [fld("a", 2, False), {"name": "ol", "kind": "objlist", "cls": "Sub", "n": nobj, "rand": True, "randsz": True}],
+               "blocks": [{"name": "c1", "dynamic": False, "body": body}]}
+        world = {"classes": {"Sub": sub, "Top": top}, "population": [{"id": "o1", "cls": "Top"}]}
+        ops = [{"op": "construct", "o": "o1"}]
+        wants = [nobj, 1, 1, nobj, max(lo, 0), nobj - 1, 2, nobj]
+        rnd.shuffle(wants)
+        for k_, want in enumerate([nobj] + wants):
+            ops.append({"op": "call", "call": wcall([E(B("eq", {"k": "size", "l": "ol"}, lit(want)))])})
+            if k_ % 3 == 2:
+                ops.append({"op": "call", "call": mcall()})
+            if k_ == 4:
+                ops.append({"op": "set", "p": "o1.ol[0].z", "v": bits(rnd.randrange(4), 2)})
+        ops.append({"op": "call", "call": wcall([E(B("eq", {"k": "size", "l": "ol"}, lit(nobj + 1)))])})     # more than populated: fails
+        ops.append({"op": "call", "call": mcall()})
+        out.append({"id": "L/objrs/%s/%d" % ("core" if core else "s%d" % seed, t), "world": world, "ops": ops, "tags": []})
+    return out
